@@ -353,6 +353,8 @@ pub static PROGRESS: std::sync::Mutex<(i64, i64, bool)> = std::sync::Mutex::new(
 pub struct BuildOutcome {
     pub res: Value,
     pub polls: u64,
+    /// (MainStep announced through the progress callback, polls counted so far)
+    pub steps: Vec<(String, u64)>,
 }
 
 /// run one build with cancellation / watchdog instrumentation
@@ -363,6 +365,7 @@ pub fn do_build(wtxn: &mut RwTxn, db: RawDb, idx: u16, metric: Metric, dim: usiz
 #[allow(clippy::too_many_arguments)]
 pub fn do_build_with(pool: &mut WriterPool, wtxn: &mut RwTxn, db: RawDb, idx: u16, metric: Metric, dim: usize, o: &BuildOpts, max_polls: u64) -> BuildOutcome {
     let polls = AtomicU64::new(0);
+    let steps: std::sync::Mutex<Vec<(String, u64)>> = std::sync::Mutex::new(Vec::new());
     let watchdog = std::sync::atomic::AtomicBool::new(false);
     let cancel_at = o.cancel_at;
     let r = catch_unwind(AssertUnwindSafe(|| {
@@ -382,6 +385,9 @@ pub fn do_build_with(pool: &mut WriterPool, wtxn: &mut RwTxn, db: RawDb, idx: u1
             if let Some(n) = o.mem {
                 b.available_memory(n);
             }
+            b.progress(|p| {
+                steps.lock().unwrap().push((format!("{:?}", p.main), polls.load(Ordering::SeqCst)));
+            });
             b.cancel(|| {
                 let n = polls.fetch_add(1, Ordering::SeqCst);
                 if n >= max_polls {
@@ -409,7 +415,8 @@ pub fn do_build_with(pool: &mut WriterPool, wtxn: &mut RwTxn, db: RawDb, idx: u1
         }
         Err(p) => json!({"c":"Panic","msg":panic_msg(p)}),
     };
-    BuildOutcome { res, polls: polls_n }
+    let steps = steps.into_inner().unwrap();
+    BuildOutcome { res, polls: polls_n, steps }
 }
 
 /// Executes the history; appends the events to `out`. Runs on the calling thread (callers that
@@ -669,8 +676,30 @@ pub fn run_history_with(
                 let fds_before = count_fds();
                 let tmp_before = o.tmpdir.as_ref().map(|t| count_dir(t)).unwrap_or(-1);
                 *PROGRESS.lock().unwrap() = (hno as i64, k as i64, true);
+                // hook H2: tree nodes and roots after each phase of the build (small histories only)
+                let phases: std::rc::Rc<std::cell::RefCell<Vec<(&'static str, Vec<u32>, RawDump)>>> = Default::default();
+                if h.sides {
+                    let sink = phases.clone();
+                    arroy::verif::set_phase_sink(Some(Box::new(move |name, rtxn, index, roots| {
+                        let pfx = [index.to_be_bytes()[0], index.to_be_bytes()[1], decode::KIND_TREE];
+                        let d: RawDump = db.prefix_iter(rtxn, &pfx).unwrap().map(|r| r.unwrap()).map(|(k, v)| (k.to_vec(), v.to_vec())).collect();
+                        sink.borrow_mut().push((name, roots.to_vec(), d));
+                    })));
+                }
                 let bo = do_build_with(&mut pool, w, db, idx, m, dim, o, h.max_polls.min(cfg.max_polls));
                 *PROGRESS.lock().unwrap() = (hno as i64, k as i64, false);
+                arroy::verif::set_phase_sink(None);
+                if h.sides && bo.res["c"] == "Ok" {
+                    let ph: Vec<Value> = phases.borrow().iter().map(|(name, roots, d)| {
+                        let dec = decode::decode_dump(d, &|_| Some(m));
+                        let empty = IndexRaw::default();
+                        let st = project_index(&mut ctx, dec.get(&idx).unwrap_or(&empty), m, dim, false);
+                        json!({"name": name, "roots": roots.iter().map(|r| *r as i64).collect::<Vec<_>>(), "nodes": st["nodes"]})
+                    }).collect();
+                    if !ph.is_empty() {
+                        ev["phases"] = json!(ph);
+                    }
+                }
                 let fds_after = count_fds();
                 let tmp_after = o.tmpdir.as_ref().map(|t| count_dir(t)).unwrap_or(-1);
                 ev["fd_delta"] = json!(fds_after - fds_before);
@@ -681,6 +710,7 @@ pub fn run_history_with(
                     "mem": o.mem.map(|x| x.min(i32::MAX as usize) as i64).unwrap_or(-1), "threads": rayon::current_num_threads() as i64,
                     "cancel_at": o.cancel_at.map(|x| x.min(i32::MAX as u64) as i64).unwrap_or(-1)});
                 ev["polls"] = json!(bo.polls.min(i32::MAX as u64) as i64);
+                ev["steps"] = json!(bo.steps.iter().map(|(s, n)| json!([s, (*n).min(i32::MAX as u64) as i64])).collect::<Vec<_>>());
                 if bo.res["c"] != "Ok" {
                     // a failed build leaves a half-built forest in the transaction: the caller can only roll back
                     // (C10); the rest of this transaction is skipped and its commit becomes an abort
